@@ -10,7 +10,7 @@ use serde_json::{json, Value};
 use std::num::NonZero;
 use vph::refdec;
 
-pub const RULE: &str = "every input length 1..49 (thorough 1..97) (block 16) × 3 signal kinds × channels {1,2} (thorough + 3, 8) × depth {8,16} (thorough + 24, 32) × seek policy {off, frames 1/2/3, seconds 1 at rates 16/24/44100/0} × declared/undeclared × padding {none, 4096, 0, 4+18k+δ for δ∈−8..8 (k = seek points of this configuration)} × writer start offset {0,7} × extra metadata {none, comment + 2 application blocks + picture}; plus long streams (lengths 65535, 65536, 65537, 65551..65553, 69632, 106496, 106596, 131075 PCM frames × block 16/4096 × seconds/frames policies at 4 rates × declared/undeclared × padding default/none); each finished device image is judged by the independent validator (sample count, parameters, frame-size extrema, block-size rule, MD5, every defined seek point = a real frame, ordering, placeholders last), by the device call log (nothing written before the stream start; once audio exists no write touches bytes that already hold audio) and by generate_seektable(file, same interval) == defined points; plus the byte (LE/BE) and channel writers × length 1..49 × channels {1,2} × depth {8,12,16,24,32} × declared/undeclared × seek table on/off judged by the independent validator; thorough adds >932067-frame streams";
+pub const RULE: &str = "every input length 1..49 (thorough 1..97) (block 16) × 3 signal kinds × channels {1,2} (thorough + 3, 8) × depth {8,16} (thorough + 24, 32) × seek policy {off, frames 1/2/3, seconds 1 at rates 16/24/44100/0} × declared/undeclared × padding {none, 4096, 0, 4+18k+δ for δ∈−8..8 (k = seek points of this configuration)} × writer start offset {0,7} × extra metadata {none, comment + 2 application blocks + picture}; plus long streams (lengths 65535, 65536, 65537, 65551..65553, 69632, 106496, 106596, 131075 PCM frames × block 16/4096 × seconds/frames policies at 4 rates × declared/undeclared × padding default/none) and big frames (one block of 64 KiB and more of interleaved PCM: 8×24-bit×4096, 2×16-bit×16384/16385, mono 16-bit 32768/32769/40000, 2×32-bit×8193, 3×24-bit×7282, 8×32-bit×2049); each finished device image is judged by the independent validator (sample count, parameters, frame-size extrema, block-size rule, MD5, every defined seek point = a real frame, ordering, placeholders last), by the device call log (nothing written before the stream start; once audio exists no write touches bytes that already hold audio) and by generate_seektable(file, same interval) == defined points; plus the byte (LE/BE) and channel writers × length 1..49 × channels {1,2} × depth {8,12,16,24,32} × declared/undeclared × seek table on/off judged by the independent validator; thorough adds >932067-frame streams";
 pub const ASSUMPTIONS: &[&str] = &["PCM values come from 3 fixed signal kinds (values: C01)"];
 pub fn bounds(quick: bool) -> Value {
     json!({"lengths": if quick { "1..49; channels 1,2; depths 8,16" } else { "1..97; channels 1,2,3,8; depths 8,16,24,32" }, "padding_delta": "-8..8", "huge_stream": if quick { "not run" } else { "932100 frames of 16 constant samples, declared and undeclared, seektable_frames(1)" }})
@@ -317,6 +317,28 @@ pub fn run(ctx: &Ctx, acc: &mut Acc) {
                                 acc.violation(format!("C09|long|{clause}"), format!("{c:?}: {detail}"), cfg_json(&c));
                             }
                         }
+                    }
+                }
+            }
+        }
+    }
+    // ---- big frames: one block of interleaved PCM larger than 64 KiB (and exactly 64 KiB, and one sample more), the sizes at
+    //      which per-call staging buffers for hashing / byte conversion wrap
+    for (ch, bps, block) in [(8u8, 24u32, 4096u16), (2, 16, 16384), (2, 16, 16385), (1, 16, 32768), (1, 16, 32769), (1, 16, 40000), (2, 32, 8193), (3, 24, 7282), (8, 32, 2049)] {
+        for declared in [true, false] {
+            for len in [block as usize, block as usize + 1, 2 * block as usize + 7] {
+                if !ctx.mine() {
+                    continue;
+                }
+                let c = Cfg { len, kind: 1, sig: Sig { rate: 48000, bps, ch }, seek: Seek::Frames(1), declared, pad: Pad::Default, start: 0, extra: false, block };
+                acc.states += 1;
+                acc.executions += 1;
+                acc.transitions += 3;
+                match run_case(&c) {
+                    Ok(()) => acc.outcome(format!("bigframe:ok:decl{declared}")),
+                    Err((clause, detail)) => {
+                        acc.outcome(format!("bad:{clause}"));
+                        acc.violation(format!("C09|bigframe|{clause}"), format!("{c:?}: {detail}"), cfg_json(&c));
                     }
                 }
             }
